@@ -266,7 +266,10 @@ def run_replay(prop, path):
                     if time.time() > t_end or st.n_violations:
                         return
                     _b(c)
-                engine.explore(stop_body, (), hs[0].get("bound"), st)
+                try:
+                    engine.explore(stop_body, (), hs[0].get("bound"), st)
+                except engine.ReplayDivergence:
+                    pass            # the early stop above ends executions before their prefix is consumed
                 fails = [v for v in st.violations if v["clause"] == rec["clause"]]
     if fails:
         print("VIOLATION property=%s replay=%s" % (prop, path))
